@@ -365,7 +365,24 @@ pub fn cmd_sweep(args: &[String]) -> i32 {
     j.push_str(&format!("\"worker\":{worker},\"kind\":{},\"evaluations\":{evaluations},\"files\":{},\"wall_s\":{:.3},", crate::jstr(kind), work.len(), t0.elapsed().as_secs_f64()));
     j.push_str("\"probes\":{");
     j.push_str(&counters.iter().map(|(k, v)| format!("{}:{v}", crate::jstr(k))).collect::<Vec<_>>().join(","));
-    j.push_str("},\"faults\":{},\"harness_errors\":[");
+    j.push_str("},\"faults\":{");
+    let mut fl: Vec<String> = Vec::new();
+    match kind {
+        "trunc" => fl.push(format!("\"truncation_point\":{evaluations}")),
+        "bytes" => fl.push(format!("\"single_byte_replacement\":{evaluations}")),
+        "typed" => {
+            for (k, v) in counters.iter() {
+                if TYPED_KINDS.contains(&k.as_str()) {
+                    fl.push(format!("{}:{v}", crate::jstr(&format!("typed_{k}"))));
+                } else if k == "scribble_v1_block" {
+                    fl.push(format!("\"scribble\":{v}"));
+                }
+            }
+        }
+        _ => {}
+    }
+    j.push_str(&fl.join(","));
+    j.push_str("},\"harness_errors\":[");
     j.push_str(&out_found.iter().filter(|f| f.0.starts_with("HARNESS")).map(|f| crate::jstr(&f.2)).collect::<Vec<_>>().join(","));
     j.push_str("],\"found\":[");
     j.push_str(&out_found.iter().filter(|f| !f.0.starts_with("HARNESS")).map(|(o, s, d, p)| format!("{{\"oracle\":{},\"sig\":{},\"detail\":{},\"replay\":{}}}", crate::jstr(o), crate::jstr(s), crate::jstr(d), crate::jstr(p))).collect::<Vec<_>>().join(","));
